@@ -8,6 +8,7 @@ import (
 	"os"
 	"os/exec"
 	"path/filepath"
+	"regexp"
 	"strings"
 
 	"verif/sa/core"
@@ -21,19 +22,31 @@ import (
 // toolchains, its own HTML escaper); the renames and the calls that have no counterpart are listed.
 
 type stdPair struct {
-	stdRecv, name string // function in GOROOT/src/encoding/json
+	stdRecv, name string // function in GOROOT/src/<stdPkg> (default encoding/json)
 	rel, recv     string // sonic package / receiver
+	stdPkg        string
+	noCalls       bool // compare branch conditions and loop headers only
 }
 
 var stdPairs = []stdPair{
-	{"", "typeFields", "internal/resolver", ""},
-	{"", "dominantField", "internal/resolver", ""},
-	{"", "parseTag", "internal/resolver", ""},
-	{"", "isValidTag", "internal/resolver", ""},
-	{"tagOptions", "Contains", "internal/resolver", "tagOptions"},
-	{"", "foldName", "internal/resolver", ""},
-	{"", "appendFoldedName", "internal/resolver", ""},
-	{"", "foldRune", "internal/resolver", ""},
+	{stdRecv: "", name: "typeFields", rel: "internal/resolver"},
+	{stdRecv: "", name: "dominantField", rel: "internal/resolver"},
+	{stdRecv: "", name: "parseTag", rel: "internal/resolver"},
+	{stdRecv: "", name: "isValidTag", rel: "internal/resolver"},
+	{stdRecv: "tagOptions", name: "Contains", rel: "internal/resolver", recv: "tagOptions"},
+	{stdRecv: "", name: "foldName", rel: "internal/resolver"},
+	{stdRecv: "", name: "appendFoldedName", rel: "internal/resolver"},
+	{stdRecv: "", name: "foldRune", rel: "internal/resolver"},
+	// the heap-sort fallback of the map-key sorter is sort.heapSort / sort.siftDown over []_MapPair
+	{name: "heapSort", rel: "internal/encoder/alg", stdPkg: "sort", noCalls: true},
+	{name: "siftDown", rel: "internal/encoder/alg", stdPkg: "sort", noCalls: true},
+}
+
+// textual rewrites applied to the standard library's events before comparing (sort.Interface
+// calls become direct comparisons of the key field in sonic's copy)
+var stdRewrites = []struct{ re, to string }{
+	{`!data\.Less\(([^,()]+), ([^,()]+)\)`, "kvs[$1].k >= kvs[$2].k"},
+	{`data\.Less\(([^,()]+), ([^,()]+)\)`, "kvs[$1].k < kvs[$2].k"},
 }
 
 // std event -> sonic event
@@ -48,7 +61,28 @@ var stdIgnore = map[string]string{
 	"call typeByIndex": "argument of typeEncoder",
 }
 
-func decisionEvents(body *ast.BlockStmt) []string {
+func stmtStr(s ast.Stmt) string {
+	switch x := s.(type) {
+	case nil:
+		return ""
+	case *ast.AssignStmt:
+		var l, r []string
+		for _, e := range x.Lhs {
+			l = append(l, exprStr(e))
+		}
+		for _, e := range x.Rhs {
+			r = append(r, exprStr(e))
+		}
+		return strings.Join(l, ", ") + " " + x.Tok.String() + " " + strings.Join(r, ", ")
+	case *ast.IncDecStmt:
+		return exprStr(x.X) + x.Tok.String()
+	case *ast.ExprStmt:
+		return exprStr(x.X)
+	}
+	return "?"
+}
+
+func decisionEvents(body *ast.BlockStmt, calls bool) []string {
 	var out []string
 	ast.Inspect(body, func(n ast.Node) bool {
 		switch x := n.(type) {
@@ -56,7 +90,18 @@ func decisionEvents(body *ast.BlockStmt) []string {
 			return false
 		case *ast.IfStmt:
 			out = append(out, "if "+exprStr(x.Cond))
+		case *ast.ForStmt:
+			if !calls {
+				c := ""
+				if x.Cond != nil {
+					c = exprStr(x.Cond)
+				}
+				out = append(out, "for "+stmtStr(x.Init)+"; "+c+"; "+stmtStr(x.Post))
+			}
 		case *ast.CallExpr:
+			if !calls {
+				return true
+			}
 			out = append(out, "call "+exprStr(x.Fun))
 		case *ast.CaseClause:
 			s := "case"
@@ -70,14 +115,14 @@ func decisionEvents(body *ast.BlockStmt) []string {
 	return out
 }
 
-func stdJSONFuncs() (map[string]*ast.FuncDecl, string, error) {
+func stdFuncs(pkg string) (map[string]*ast.FuncDecl, string, error) {
 	root := build.Default.GOROOT
 	if _, err := os.Stat(filepath.Join(root, "src", "encoding", "json")); err != nil {
 		if out, err := exec.Command("go", "env", "GOROOT").Output(); err == nil {
 			root = strings.TrimSpace(string(out))
 		}
 	}
-	dir := filepath.Join(root, "src", "encoding", "json")
+	dir := filepath.Join(root, "src", filepath.FromSlash(pkg))
 	fset := token.NewFileSet()
 	pkgs, err := parser.ParseDir(fset, dir, func(fi os.FileInfo) bool { return !strings.HasSuffix(fi.Name(), "_test.go") }, 0)
 	if err != nil {
@@ -111,18 +156,32 @@ func recvTypeName(fd *ast.FuncDecl) string {
 }
 
 func init() {
-	register(&core.Rule{ID: "S11", Min: 8,
-		Doc: "Sibling cross-check against the standard library: for sonic's copies of encoding/json's field-resolution functions (typeFields, dominantField, parseTag, isValidTag, tagOptions.Contains, foldName, appendFoldedName, foldRune), the sequence of branch conditions and calls of the encoding/json function in the analysing toolchain's GOROOT is a subsequence of the sequence in sonic's function (function literals excluded; listed renames/ignores), so sonic's resolver takes every decision encoding/json takes, in the same order.",
+	register(&core.Rule{ID: "S11", Min: 10,
+		Doc: "Sibling cross-check against the standard library: for sonic's copies of encoding/json's field-resolution functions (typeFields, dominantField, parseTag, isValidTag, tagOptions.Contains, foldName, appendFoldedName, foldRune), the sequence of branch conditions and calls of the encoding/json function in the analysing toolchain's GOROOT is a subsequence of the sequence in sonic's function (function literals excluded; listed renames/ignores), so sonic's resolver takes every decision encoding/json takes, in the same order; likewise the heap-sort fallback of the map-key sorter (alg.heapSort, alg.siftDown) against sort.heapSort / sort.siftDown, comparing branch conditions and loop headers.",
 		Run: runS11})
 }
 
 func runS11(c *core.Ctx) {
-	std, dir, err := stdJSONFuncs()
-	if err != nil || len(std) == 0 {
-		c.Undecided("stdsib", token.NoPos, "cannot parse %s: %v", dir, err)
-		return
+	stdCache := map[string]map[string]*ast.FuncDecl{}
+	var res []*regexp.Regexp
+	for _, rw := range stdRewrites {
+		res = append(res, regexp.MustCompile(rw.re))
 	}
 	for _, pr := range stdPairs {
+		if pr.stdPkg == "" {
+			pr.stdPkg = "encoding/json"
+		}
+		std, ok := stdCache[pr.stdPkg]
+		dir := pr.stdPkg
+		if !ok {
+			var err error
+			std, dir, err = stdFuncs(pr.stdPkg)
+			if err != nil || len(std) == 0 {
+				c.Undecided("stdsib:"+pr.name, token.NoPos, "cannot parse %s: %v", dir, err)
+				continue
+			}
+			stdCache[pr.stdPkg] = std
+		}
 		cn := "stdsib:" + pr.name
 		pk := c.Prog.Pkg(pr.rel)
 		fd := core.FuncDecl(pk, pr.recv, pr.name)
@@ -132,12 +191,17 @@ func runS11(c *core.Ctx) {
 		}
 		sd := std[pr.stdRecv+"."+pr.name]
 		if sd == nil {
-			c.Undecided(cn, fd.Pos(), "encoding/json has no function %s.%s in %s", pr.stdRecv, pr.name, dir)
+			c.Undecided(cn, fd.Pos(), "%s has no function %s.%s", pr.stdPkg, pr.stdRecv, pr.name)
 			continue
 		}
 		c.Analysed(core.FuncName(pk, fd))
-		a := decisionEvents(sd.Body)
-		b := decisionEvents(fd.Body)
+		a := decisionEvents(sd.Body, !pr.noCalls)
+		b := decisionEvents(fd.Body, !pr.noCalls)
+		for k := range a {
+			for ri, re := range res {
+				a[k] = re.ReplaceAllString(a[k], stdRewrites[ri].to)
+			}
+		}
 		j, n, missing := 0, 0, ""
 		for _, ev := range a {
 			if _, skip := stdIgnore[ev]; skip {
@@ -164,9 +228,9 @@ func runS11(c *core.Ctx) {
 			j = k + 1
 		}
 		if missing != "" {
-			c.Bad(cn, fd.Pos(), "sonic's %s does not take the decision %s that encoding/json's %s takes (GOROOT %s)", pr.name, missing, pr.name, build.Default.GOROOT)
+			c.Bad(cn, fd.Pos(), "sonic's %s does not take the decision %s that %s.%s takes (GOROOT %s)", pr.name, missing, pr.stdPkg, pr.name, build.Default.GOROOT)
 		} else {
-			c.OK(cn, fd.Pos(), "all %d decisions/calls of encoding/json's %s occur in order in sonic's copy (%d events)", n, pr.name, len(b))
+			c.OK(cn, fd.Pos(), "all %d decisions of %s.%s occur in order in sonic's copy (%d events)", n, pr.stdPkg, pr.name, len(b))
 		}
 	}
 }
